@@ -4,6 +4,7 @@
 From Coq Require Import ZArith List Bool.
 From ZV.Gen Require Gen_Tables.
 From ZV.Mem Require Import CompressBound CompressBoundProofs.
+From ZV.Codec Require Import FrameInspect FrameInspectProofs.
 Import ListNotations.
 Local Open Scope Z_scope.
 
@@ -99,3 +100,66 @@ Print Assumptions capacity_error_not_corruption.
 Theorem contracts_inhabited : bc_contract bc_raw /\ split_contract (split_const (92 * 1024)).
 Proof. exact contracts_satisfiable. Qed.
 Print Assumptions contracts_inhabited.
+
+(* ======================= frame inspectors (coq/Codec/FrameInspect.v) ======================= *)
+
+(* ZSTD_getFrameHeader returns exactly the fields that were serialised (every header layout: dictionary-id width,
+   content-size width incl. the +256 form, single segment or window descriptor, checksum flag) *)
+Theorem frame_header_fields_exact : forall h rest, wf_hdr h ->
+  get_frame_header (ser_header h ++ rest) = HOk (zfh_of h).
+Proof. exact get_frame_header_ser. Qed.
+Print Assumptions frame_header_fields_exact.
+
+(* ZSTD_findFrameCompressedSize = length of the first frame, whatever follows it (zstd or skippable frame) *)
+Theorem frame_compressed_size_exact : forall f rest, wf_frame f ->
+  find_frame_compressed_size (ser_frame f ++ rest) = Some (len (ser_frame f)).
+Proof. exact find_frame_compressed_size_ser. Qed.
+Print Assumptions frame_compressed_size_exact.
+
+(* ZSTD_decompressBound is never below what the frames regenerate *)
+Theorem decompress_bound_safe : forall fl,
+  Forall wf_frame fl -> bound_frames fl < CS_ERROR ->
+  decompress_bound (ser_frames fl) = Some (bound_frames fl) /\ regen_frames fl <= bound_frames fl.
+Proof. exact decompress_bound_ser. Qed.
+Print Assumptions decompress_bound_safe.
+
+(* ZSTD_getFrameContentSize: the declared size when present (and then it is what the frame regenerates) *)
+Theorem content_size_exact : forall f rest, wf_frame f ->
+  get_frame_content_size (ser_frame f ++ rest) =
+    match f with
+    | ZFrame h bl _ => if has_fcs h then regen_blocks bl else CS_UNKNOWN
+    | SFrame _ _ => 0
+    end.
+Proof. exact get_frame_content_size_ser. Qed.
+Print Assumptions content_size_exact.
+
+(* ZSTD_findDecompressedSize over a concatenation of frames that all declare their size *)
+Theorem find_decompressed_size_exact : forall fl,
+  Forall wf_frame fl -> forallb frame_has_size fl = true -> regen_frames fl < CS_ERROR ->
+  find_decompressed_size (ser_frames fl) = regen_frames fl.
+Proof. exact find_decompressed_size_ser. Qed.
+Print Assumptions find_decompressed_size_exact.
+
+(* ZSTD_decompressionMargin computes header + checksum + 3 bytes per block (+ whole skippable frames) + largest block size *)
+Theorem decompression_margin_formula : forall fl,
+  Forall wf_frame fl -> bound_frames fl < CS_ERROR ->
+  decompression_margin (ser_frames fl) = Some (margin_of fl).
+Proof. exact decompression_margin_ser. Qed.
+Print Assumptions decompression_margin_formula.
+
+(* in-place decoding with that margin: no block leaves the buffer or overwrites unread input,
+   provided no block is larger than what it regenerates *)
+Theorem inplace_margin_sound : forall fl,
+  Forall wf_frame fl -> Forall non_expanding fl ->
+  let B := regen_frames fl + margin_of fl in
+  inplace_decode fl B = Some (regen_frames fl, B).
+Proof. exact inplace_margin_sound_lemma. Qed.
+Print Assumptions inplace_margin_sound.
+
+(* ... and that hypothesis is needed (known finding C06-margin-expanding-blocks): witness layout *)
+Theorem inplace_margin_refuted :
+  Forall wf_frame expanding_witness /\
+  decompression_margin (ser_frames expanding_witness) = Some 4063 /\
+  inplace_decode expanding_witness (regen_frames expanding_witness + 4063) = None.
+Proof. exact inplace_margin_refuted_lemma. Qed.
+Print Assumptions inplace_margin_refuted.
